@@ -137,3 +137,4 @@ def shrink(case):
     yield from common.shrink_faults(case, ("main",))
     yield from common.shrink_tasks(case, {"main"})
     yield from common.shrink_bytes_tail(case)
+    yield from common.shrink_buffers(case, ("main",))
